@@ -56,8 +56,9 @@ def Config.isDisabled (c : Config) (code : String) : Bool := c.disabledDiagnosti
 namespace Index
 
 /-- `publish_diagnostics_for_file` under a loaded configuration -/
-def publish (st : Index) (cfg : Config) (f : Path) (cycles : List Cycle) : List Diag :=
-  st.hDiagnostics cfg.disabledDiagnostics f cycles
+def publish (st : Index) (cfg : Config) (f : Path) (cycles : List Cycle)
+    (res : Def → String → Option Def) : List Diag :=
+  st.hDiagnostics cfg.disabledDiagnostics f cycles res
 
 end Index
 end PLS
